@@ -559,10 +559,9 @@ impl<W: Write> RdbWriter<W> {
     fn write_key_value(&mut self, key: &[u8], value: &Value, ttl: Option<Duration>) -> io::Result<()> {
         // Write expiry if present
         if let Some(ttl) = ttl {
-            let expiry_ms = SystemTime::now()
-                .duration_since(UNIX_EPOCH)
-                .unwrap()
-                .as_millis() as u64 + ttl.as_millis() as u64;
+            // the deadline in whole unix milliseconds, rounded up: never earlier than the key's deadline
+            let deadline = SystemTime::now().duration_since(UNIX_EPOCH).unwrap() + ttl;
+            let expiry_ms = deadline.as_millis() as u64 + (deadline.subsec_nanos() % 1_000_000 != 0) as u64;
             
             self.write_byte(RdbOpcode::ExpireTimeMs as u8)?;
             self.write_u64_le(expiry_ms)?;
@@ -845,34 +844,47 @@ impl<R: Read> RdbReader<R> {
     fn read_key_value_with_expiry(&mut self, storage: &Arc<StorageEngine>, db: usize, expiry_ms: u64) -> Result<()> {
         let value_type = self.read_byte()?;
         
-        let now_ms = SystemTime::now()
-            .duration_since(UNIX_EPOCH)
-            .unwrap()
-            .as_millis() as u64;
-        
-        if expiry_ms <= now_ms {
-            // The deadline passed while the server was down. Loading the pair with `ttl = None`
+        if Self::time_left(expiry_ms).is_none() {
+            // The deadline passed while the server was down. Loading the pair with no deadline
             // would make the key immortal: consume the pair, then remove the key again.
             let key = self.read_key_value_with_type(storage, db, value_type, None)?;
             storage.delete(db, &key)?;
             return Ok(());
         }
         
-        let ttl = Some(Duration::from_millis(expiry_ms - now_ms));
-        self.read_key_value_with_type(storage, db, value_type, ttl).map(|_| ())
+        self.read_key_value_with_type(storage, db, value_type, Some(expiry_ms)).map(|_| ())
+    }
+    
+    /// What is left until a deadline given in unix milliseconds; None when it has passed
+    fn time_left(deadline_ms: u64) -> Option<Duration> {
+        let now = SystemTime::now().duration_since(UNIX_EPOCH).unwrap();
+        Duration::from_millis(deadline_ms).checked_sub(now).filter(|left| !left.is_zero())
+    }
+    
+    /// Give a key that has just been loaded its deadline. The time to live is measured here, after the value
+    /// has been read and rebuilt, so that the time this took for a big value does not move the deadline
+    fn expire_at(storage: &Arc<StorageEngine>, db: usize, key: &[u8], deadline_ms: u64) -> Result<()> {
+        match Self::time_left(deadline_ms) {
+            Some(ttl) => { storage.expire(db, key, ttl)?; }
+            None => { storage.delete(db, key)?; }
+        }
+        Ok(())
     }
     
     /// Read key-value with known type; returns the key that was loaded
-    fn read_key_value_with_type(&mut self, storage: &Arc<StorageEngine>, db: usize, value_type: u8, ttl: Option<Duration>) -> Result<Vec<u8>> {
+    fn read_key_value_with_type(&mut self, storage: &Arc<StorageEngine>, db: usize, value_type: u8, deadline_ms: Option<u64>) -> Result<Vec<u8>> {
         let loaded_key = match value_type {
             op if op == RdbOpcode::String as u8 => {
                 let key = self.read_string()?;
                 let value = self.read_string()?;
                 
-                if let Some(ttl) = ttl {
-                    storage.set_string_ex(db, key.clone(), value, ttl)?;
-                } else {
-                    storage.set_string(db, key.clone(), value)?;
+                match deadline_ms {
+                    Some(ms) => match Self::time_left(ms) {
+                        Some(ttl) => storage.set_string_ex(db, key.clone(), value, ttl)?,
+                        // passed while the pair was being read: as if loaded and expired
+                        None => { storage.delete(db, &key)?; }
+                    },
+                    None => storage.set_string(db, key.clone(), value)?,
                 }
                 key
             }
@@ -886,8 +898,8 @@ impl<R: Read> RdbReader<R> {
                     storage.zadd(db, key.clone(), member, score)?;
                 }
                 
-                if let Some(ttl) = ttl {
-                    storage.expire(db, &key, ttl)?;
+                if let Some(deadline_ms) = deadline_ms {
+                    Self::expire_at(storage, db, &key, deadline_ms)?;
                 }
                 key
             }
@@ -949,8 +961,8 @@ impl<R: Read> RdbReader<R> {
                             }
                         }
                         
-                        if let Some(ttl) = ttl {
-                            storage.expire(db, &key, ttl)?;
+                        if let Some(deadline_ms) = deadline_ms {
+                            Self::expire_at(storage, db, &key, deadline_ms)?;
                         }
                         return Ok(key);
                     } else {
@@ -971,8 +983,8 @@ impl<R: Read> RdbReader<R> {
                     // Empty list - do nothing
                 }
                 
-                if let Some(ttl) = ttl {
-                    storage.expire(db, &key, ttl)?;
+                if let Some(deadline_ms) = deadline_ms {
+                    Self::expire_at(storage, db, &key, deadline_ms)?;
                 }
                 key
             }
@@ -987,8 +999,8 @@ impl<R: Read> RdbReader<R> {
                 }
                 storage.sadd(db, key.clone(), members)?;
                 
-                if let Some(ttl) = ttl {
-                    storage.expire(db, &key, ttl)?;
+                if let Some(deadline_ms) = deadline_ms {
+                    Self::expire_at(storage, db, &key, deadline_ms)?;
                 }
                 key
             }
@@ -1005,8 +1017,8 @@ impl<R: Read> RdbReader<R> {
                 }
                 storage.hset(db, key.clone(), field_values)?;
                 
-                if let Some(ttl) = ttl {
-                    storage.expire(db, &key, ttl)?;
+                if let Some(deadline_ms) = deadline_ms {
+                    Self::expire_at(storage, db, &key, deadline_ms)?;
                 }
                 key
             }
